@@ -210,6 +210,17 @@ pub fn run(args: &RunArgs) -> i32 {
             }
             FILES.iter().filter_map(|(fname, _)| r.after.get(&format!("src/{fname}.{ext}")).map(|b| (fname.to_string(), String::from_utf8_lossy(b).to_string()))).collect()
         };
+        // a second module of the same build: its task is live while each file's task is created, emitted and freed, and
+        // while a further task for the same file is created (one loader instance, tasks interleaved as a bundler with
+        // two modules in flight does); alone, it gives the module the interleaved runs are compared with
+        let partner: Vec<J> = vec![json!(["/p/partner.graphql", "#import Other from \"./other.graphql\"\nquery partnerQuery { u { ...Other } }\n"]), json!([format!("/p/{}.graphql", AUX_FILE.0), AUX_FILE.1])];
+        let partner_alone: Option<String> = match pool.ask(my, &json!({"text": "", "files": partner, "config": cfg_text})) {
+            crate::worker::Answer::Done(v) => v["js"].as_str().map(|s| s.to_string()),
+            _ => None,
+        };
+        if partner_alone.is_none() {
+            rep.report(Violation { key: "loader_error[partner-module]".into(), what: "the loader fails on the partner module".into(), case: json!({"config": cfg_text, "files": partner}) });
+        }
         for (fname, ftext) in FILES {
             pairs.fetch_add(1, Ordering::Relaxed);
             let case = |extra: J| json!({"config": cfg_text, "file": fname, "text": ftext, "detail": extra});
@@ -256,9 +267,17 @@ pub fn run(args: &RunArgs) -> i32 {
             };
             // loader side, same config text
             let loader_files: Vec<J> = ops.iter().map(|(p, t)| json!([p.to_string_lossy(), t])).collect();
-            let js = match pool.ask(my, &json!({"text": ftext, "files": loader_files, "config": cfg_text})) {
+            let js = match pool.ask(my, &json!({"text": ftext, "files": loader_files, "other_files": partner, "config": cfg_text})) {
                 crate::worker::Answer::Done(v) => match v["js"].as_str() {
-                    Some(j) => j.to_string(),
+                    Some(j) => {
+                        if v["again_js"].as_str() != Some(j) {
+                            rep.report(Violation { key: "loader.second_task_for_the_file_differs".into(), what: "a second task for the same file, created after the first was freed and while another module's task was live, emits a different module".into(), case: case(json!({"first": j, "again": v["again_js"]})) });
+                        }
+                        if partner_alone.is_some() && v["other_js"].as_str() != partner_alone.as_deref() {
+                            rep.report(Violation { key: "loader.interleaved_module_differs".into(), what: "the module of another file whose task was live meanwhile differs from the module that file gets alone: the loader answered for the wrong file".into(), case: case(json!({"interleaved": v["other_js"], "alone": partner_alone})) });
+                        }
+                        j.to_string()
+                    }
                     None => {
                         rep.report(Violation { key: "loader_error".into(), what: format!("loader failed: {v}"), case: case(json!({})) });
                         continue;
